@@ -71,6 +71,7 @@ cdef class QueryScheduler:
     cdef public list _query_heap
     cdef object _next_run
     cdef double _clock_resolution_millis
+    cdef double _min_next_run_millis
     cdef object _question_type
 
     cdef void _schedule_ptr_refresh(self, DNSPointer pointer, double expire_time_millis, double refresh_time_millis)
